@@ -268,6 +268,11 @@ def from_xml(xml: str, clean: bool = True, collapse: bool = False, literals: tup
     return root
 
 
+def _attr_escape(value) -> str:
+    # attribute values are written between double quotes
+    return escape(str(value), {'"': "&quot;"})
+
+
 def to_xml(node: Node, parent: Node = None, level: int = 0, skip_ns: bool = False) -> str:
     xml = ""
     spacing = "  "
@@ -277,19 +282,19 @@ def to_xml(node: Node, parent: Node = None, level: int = 0, skip_ns: bool = Fals
 
     attributes = ""
     if len(node.attributes) > 0:
-        attributes += " ".join([f"{k}=\"{v}\"" for k, v in node.attributes.items()])
+        attributes += " ".join([f"{k}=\"{_attr_escape(v)}\"" for k, v in node.attributes.items()])
 
     if not skip_ns:
         if parent is None:
             if len(node.nsmap) > 0:
-                attributes += " " + " ".join([f"xmlns:{k}=\"{v}\"" for k, v in node.nsmap.items()])
+                attributes += " " + " ".join([f"xmlns:{k}=\"{_attr_escape(v)}\"" for k, v in node.nsmap.items()])
         elif node.nsmap != parent.nsmap:
             nsmap = _nsp_unique(node.nsmap, parent.nsmap)
             if len(nsmap) > 0:
-                attributes += " " + " ".join([f"xmlns:{k}=\"{v}\"" for k, v in nsmap.items()])
+                attributes += " " + " ".join([f"xmlns:{k}=\"{_attr_escape(v)}\"" for k, v in nsmap.items()])
 
     if len(node.extras) > 0:
-        attributes += " " + " ".join([f"{k}=\"{v}\"" for k, v in node.extras.items()])
+        attributes += " " + " ".join([f"{k}=\"{_attr_escape(v)}\"" for k, v in node.extras.items()])
 
     if len(attributes) > 0:
         # Add final prefix-space to attribute string
